@@ -504,6 +504,14 @@ fn run_cli(argv: &[Vec<u8>]) -> (i64, String) {
                 2 => { cmd.arg0(""); }
                 3 => { cmd.arg0("-h"); }
                 4 => { cmd.arg0("x".repeat(5000)); }
+                // nor is the environment part of the interface: the clock is the system clock, the
+                // calendar is the one the options select, the output is not localised
+                5 | 6 => {
+                    cmd.env("SOURCE_DATE_EPOCH", "0").env("TZ", "Pacific/Kiritimati").env("LANG", "tr_TR.UTF-8")
+                        .env("LC_ALL", "tr_TR.UTF-8").env("JULIAN_REFORMATION", "2361222").env("JULIAN_CALENDAR", "julian")
+                        .env("JULIAN_OPTS", "-j -J").env("COLUMNS", "1").env("NO_COLOR", "1").env("RUST_LOG", "trace");
+                }
+                7 => { cmd.env_clear(); }
                 _ => {}
             }
         }
